@@ -238,6 +238,18 @@ fn full_walk<'a>(
                     return false;
                 }
                 ctx.count(&format!("{}:walk-panic:{:?}@{}", what, kind(end), site));
+                // the iterator's state is unspecified now, but further next() calls are
+                // still safe calls: no read outside the region, items inside the region
+                for _ in 0..2 {
+                    if let Out::Val(Some(it2)) = catch(|| iter.next()) {
+                        let a = it2 as *const _ as *const u8 as usize;
+                        if !reg.contains(a, core::mem::size_of_val(it2)) {
+                            ctx.violation(&format!("{}:item-after-panic-outside-region", what), J::s(format!("item at region offset {}", reg.off_of(a))));
+                            return false;
+                        }
+                        touch(it2.payload());
+                    }
+                }
                 return true;
             }
         }
